@@ -255,7 +255,7 @@ def mqtt_cases(rng, n_random=16):
         out.append(mq(kind, 2, 5, [(0, 20), (1, 22)], rr=(1, 0, 1)))
         out.append(mq(kind, 4, 5, [(0, 20), (1, 22)], rr=(2, 0, 0)))
         # rate 0 ("any progress"): 0x82, extension, then 0x05 completes the header, which the codec consumes:
-        # the buffered count drops 1 -> 0 and the next expiry computes 0 - 1 (io.rs:550)
+        # the buffered count drops 1 -> 0 and the next expiry computes 0 - 1, saturating since 4dba145
         out.append(mq(kind, 4, 5, [(0, 20), (1, 26), (3, 27)], rr=(1, 0, 0)))
         out.append(mq(kind, 4, 5, [(0, 20), (1, 26)], rr=(1, 0, 0)))
     for kind in (13, 15):
@@ -301,7 +301,7 @@ def timerrt_cases(rng, n_random=24):
     out.append(rt([2, 2], 5, [(0, [1, 1]), (1, [1, 0]), (2, [1, 2]), (3, [1, 0])]))
     # keep-alive 3 s, 2-byte frames one byte per second: a frame every 2 s < 3 s: alive
     out.append(rt([3, 2], 5, [(0, [1, 1]), (1, [1, 0]), (2, [1, 2]), (3, [1, 0]), (4, [1, 3])]))
-    # frame + trailing partial frame in one write, then silence: NO timeout (no timer is left armed)
+    # frame + trailing partial frame in one write, then silence: KeepAliveTimeout (before a67d067: none, ever)
     out.append(rt([1, 2], 5, [(0, [1, 1, 0, 2])]))
     # the same with the read-rate rule configured: ReadTimeout
     out.append(rt([1, 2, 0, 0, 1, 0, 1], 5, [(0, [1, 1, 0, 2])]))
@@ -313,12 +313,19 @@ def timerrt_cases(rng, n_random=24):
     out.append(rt([0, 5, 0, 0, 1, 2, 0], 5, [(0, [1, 1]), (1, [1, 0]), (2, [1, 0]), (3, [1, 0])]))
     # read-rate 1 s, rate 2: one byte per second is too slow
     out.append(rt([0, 5, 0, 0, 1, 0, 2], 4, [(0, [1, 1]), (1, [1, 0])]))
-    # header-consuming codec, rate 0: the buffered count drops when the header is consumed: underflow
+    # header-consuming codec, rate 0: the buffered count drops when the header is consumed (before 4dba145:
+    # arithmetic underflow; now a read timeout)
     out.append(rt([0, 200, 0, 0, 1, 0, 0], 5, [(0, [1, 1]), (2, [1, 3])]))
     # service not ready pauses the timers; keep-alive restarts when it is ready again
     out.append(rt([1, 1], 5, [(0, [8, 3]), (3, [8, 0])]))
-    # stale keep-alive timer + service not ready: KeepAliveTimeout although a frame arrived a second ago
+    # frame + first byte of the next one, service silently not ready: the keep-alive re-armed by the partial
+    # frame (a67d067) expires two seconds after the frame: a legitimate KeepAliveTimeout
     out.append(rt([2, 2], 5, [(1, [1, 1, 0, 2]), (1, [8, 3, 1])]))
+    # recorded finding stale-timer-while-not-ready: with the read-rate rule on, the frame-read timer expires
+    # while the service is not ready and is reported as KeepAliveTimeout: 1 s after a frame with keep-alive 4,
+    # and with keep-alive disabled
+    out.append(rt([4, 2, 0, 0, 1, 0, 0], 5, [(1, [1, 1, 0, 2]), (1, [8, 3, 1])]))
+    out.append(rt([0, 2, 0, 0, 1, 0, 0], 5, [(0, [1, 1]), (0, [8, 3, 1])]))
     # peer closes before the keep-alive expires
     out.append(rt([2, 1], 4, [(1, [3])]))
     for _ in range(n_random):
